@@ -188,7 +188,9 @@ Fixpoint same_shape (a b : list piece) : bool :=
 
 Lemma same_shape_masked a : forall b k, same_shape a b = true -> render_masked k a = render_masked k b.
 Proof.
-  induction a as [|p a IH]; intros [|p' b] k H; try discriminate; [reflexivity|].
+  induction a as [|p a IH]; intros b k H.
+  { destruct b; [reflexivity|discriminate]. }
+  destruct b as [|p' b]; [destruct p; discriminate|].
   destruct p, p'; try discriminate; cbn [same_shape render_masked render_piece] in *.
   - apply andb_true_iff in H as [Ht H]. apply str_eqb_eq in Ht. subst. now rewrite (IH b k H).
   - now rewrite (IH b (S k) H).
@@ -207,5 +209,8 @@ Example literals_example :
             PCode (s ","); PLit dq (s "it's g(2)")] in
   let b := [PCode (s "print"); PSp 1; PCode (s "*,"); PSp 1; PLit dq (s ""); PCode (s ","); PSp 1; PCode (s "f(3)");
             PCode (s ","); PLit sq (s "x = 'y'")] in
-  pieces_ok a = true /\ pieces_ok b = true /\ same_shape a b = true /  render_pieces a = s "print *, 'call q(1)', f(3),""it's g(2)""" /  mask_quotes (render_pieces a) = s "print *, ""0"", f(3),""1""" /  raw_calls [] (mask_quotes (render_pieces a)) = [[s "f"]].
+  pieces_ok a = true /\ pieces_ok b = true /\ same_shape a b = true /\
+  render_pieces a = s "print *, 'call q(1)', f(3),""it's g(2)""" /\
+  mask_quotes (render_pieces a) = s "print *, ""0"", f(3),""1""" /\
+  raw_calls [] (mask_quotes (render_pieces a)) = [[s "f"]].
 Proof. cbv zeta. repeat split; vm_compute; reflexivity. Qed.
